@@ -7,11 +7,14 @@ import struct
 
 from .. import explore, report, world as W, seeds
 from ..ref import wire
-from ..alphabet import session_messages, simple_update, attr, update_body
+from ..alphabet import session_messages, simple_update, attr, update_body, PEER_ID
 from . import c02
 
 PROP = 'C10'
-M = session_messages()
+M = dict(session_messages())
+M['OPEN_RICH'] = wire.open_msg(65002, 90, PEER_ID, [wire.cap_mp(1, 1), wire.cap_mp(2, 1), wire.cap_mp(1, 133), wire.cap(wire.CAP_RR), wire.cap(wire.CAP_RR_OLD),
+                                                    wire.cap(70), wire.cap_gr(0x4078, [(1, 1, 0x80)]), wire.cap_addpath([(1, 1, 3)]),
+                                                    wire.cap_llgr([(1, 1, 0, 3600)]), wire.cap_ext_nh([(1, 1, 2)])])
 STATES = {
     'opensent': [('TICK', 0), ('CONN_OK', 0)],
     'openconfirm': [('TICK', 0), ('CONN_OK', 0), ('RX', 0, 'OPEN_OK')],
@@ -19,6 +22,9 @@ STATES = {
     'established-hold0': [('TICK', 0), ('CONN_OK', 0), ('RX', 0, 'OPEN_OK'), ('RX', 0, 'KA')],
     # 7 s after the last message: a restart of the hold timer is visible in the timer residues
     'established-later': [('TICK', 0), ('CONN_OK', 0), ('RX', 0, 'OPEN_OK'), ('RX', 0, 'KA'), ('WAIT', 7.0)],
+    # the peer announced every capability the agent knows (enhanced route refresh, graceful restart, ADD-PATH, LLGR, extended next
+    # hop): code that is switched on by the peer's capability set runs only here
+    'established-rich': [('TICK', 0), ('CONN_OK', 0), ('RX', 0, 'OPEN_RICH'), ('RX', 0, 'KA')],
     'established-2nd-session': [('TICK', 0), ('CONN_OK', 0), ('RX', 0, 'OPEN_OK'), ('RX', 0, 'KA'), ('PEER_CLOSE', 0), ('TICK', 0),
                                 ('CONN_OK', 0), ('RX', 0, 'OPEN_OK'), ('RX', 0, 'KA')],
 }
@@ -75,6 +81,13 @@ def frames_for(seed, mode):
             if len(body) + 19 <= 4096:
                 out.append(('attr%d-value' % t, wire.frame(wire.UPDATE, body)))
     return out
+
+
+def _c02_harness():
+    h = c02.Harness()
+    h.messages = dict(h.messages)
+    h.messages['OPEN_RICH'] = M['OPEN_RICH']
+    return h
 
 
 def timers_of(w):
@@ -154,7 +167,7 @@ def task(args):
     out = []
     n = 0
     classes = set()
-    h = c02.Harness()
+    h = _c02_harness()
     for label, frame in items:
         n += 1
         v, outcome = check_one(state, label, frame)
@@ -207,6 +220,10 @@ def run(tier, seed):
             items.append(('%s-%d' % (lab, total), f))
         for ty in (1, 3, 5):
             items.append(('type%d-max-size-%d' % (ty, total), wire.frame(ty, bytes((i * 11) & 255 for i in range(total - 19)))))
+    # ROUTE-REFRESH subtypes (RFC 7313 BoRR / EoRR and unassigned ones), which only mean something after the capability exchange
+    for st_ in (0, 1, 2, 3, 255):
+        items.append(('route-refresh-subtype-%d' % st_, wire.route_refresh(1, 1, st_)))
+        items.append(('route-refresh-128-subtype-%d' % st_, wire.route_refresh(1, 1, st_, 128)))
     tasks = []
     for state in STATES:
         sub = items if state in ('established', 'opensent', 'established-hold0') or tier == 'thorough' else items[::4]
@@ -255,7 +272,7 @@ def replay(path):
         print(k, det)
     keys = [k for k, _ in a[0]]
     if d['key'].startswith('C10|v|P'):
-        h = c02.Harness()
+        h = _c02_harness()
         keys += [k.replace('C02|', 'C10|v|') for k, _ in c02.continuation(CFG.get(w['state'], {}), STATES[w['state']] + [('RX', 0, frame)], h, 0)]
         print(keys)
     if d['key'] in keys:
